@@ -26,6 +26,11 @@ func (e *Engine) runNested(fn *ssa.Function, args []Value) (res Value, ok bool) 
 	e.done, e.outcome = false, ""
 	defer func() {
 		r := recover()
+		if r != nil {
+			if _, isAbort := r.(*pathAbort); !isAbort {
+				fmt.Fprintf(os.Stderr, "PANIC in nested run: %v\n  at instr: %v\n%s", r, e.curInstr(), e.stackTrace(e.th))
+			}
+		}
 		e.th, e.threads = saveTh, saveThreads
 		e.stepMark, e.stepPS, e.stepTop, e.stepFr, e.stepTh = saveMark, savePS, saveTop, saveFr, saveSTh
 		e.pre, e.preIdx, e.pendingAdv = savePre, savePreIdx, savePend
@@ -34,6 +39,11 @@ func (e *Engine) runNested(fn *ssa.Function, args []Value) (res Value, ok bool) 
 		if r != nil {
 			if pa, isAbort := r.(*pathAbort); isAbort {
 				fmt.Fprintf(os.Stderr, "note: nested run of %s aborted: %s\n", fn, pa.why)
+				ok = false
+				return
+			}
+			if e.inRoot {
+				fmt.Fprintf(os.Stderr, "note: nested run of %s aborted by engine panic (initialisation left partial)\n", fn)
 				ok = false
 				return
 			}
@@ -146,7 +156,11 @@ func (e *Engine) setRedirects(m map[string]string) error {
 		if i < 0 {
 			return fmt.Errorf("bad redirect target %q", to)
 		}
-		fn := e.P.FindFunc(to[:i], to[i+1:])
+		pkg := to[:i]
+		if !strings.HasPrefix(pkg, repoMod) {
+			pkg = repoMod + "/" + pkg
+		}
+		fn := e.P.FindFunc(pkg, to[i+1:])
 		if fn == nil {
 			return fmt.Errorf("redirect target %q not found", to)
 		}
